@@ -403,6 +403,9 @@ def content_segment(op, sid, kwargs, eff):
                 nl = nl_bytes(kind, eff)
                 data = content.encode(eff)
             except UnicodeError:
+                if len(texts) > 1:
+                    continue      # another rendering may be encodable
+
                 raise Unencodable()
 
         if not data.endswith(nl):
@@ -417,6 +420,9 @@ def content_segment(op, sid, kwargs, eff):
             opts['line_endings'] = kind
 
         out.append(header_line(sid, opts) + data)
+
+    if not out:
+        raise Unencodable()
 
     return out
 
